@@ -145,15 +145,20 @@ class watchdog:
         return False
 
 
-def check_repo_import():
+def check_repo_import(prop=None):
     """pyformlang must come from the tree under test."""
     import pyformlang
     # every sub-package and its third-party dependencies are imported here, before any watchdog is armed: an
     # import interrupted by the watchdog's exception leaves half-initialised modules behind (seen once in 240 soak
     # runs: "module 'networkx' has no attribute 'exception'" for the rest of that worker's life)
     import importlib
-    for sub in ("finite_automaton", "regular_expression", "cfg", "cfg.llone_parser", "cfg.recursive_decent_parser",
-                "pda", "pda.transition_function", "fst", "indexed_grammar", "fcfg", "fcfg.feature_structure", "rsa"):
+    subs = ("finite_automaton", "regular_expression", "cfg", "cfg.llone_parser", "cfg.recursive_decent_parser",
+            "pda", "pda.transition_function", "fst", "indexed_grammar", "fcfg", "fcfg.feature_structure", "rsa")
+    if prop == "C17":
+        # one fixed finding of C17 (F17d, a missing import inside IndexedGrammar.intersection) only shows in a
+        # process that has not imported the other sub-packages: for this check only the package under test is loaded
+        subs = ("indexed_grammar",)
+    for sub in subs:
         importlib.import_module("pyformlang." + sub)
     import networkx.exception  # noqa: F401
     import numpy  # noqa: F401
